@@ -19,12 +19,14 @@ import (
 	"reflect"
 	"runtime/debug"
 	"strings"
+	"sync"
 	"testing"
 	"time"
 
 	"github.com/megaease/easegress/pkg/context"
+	_ "github.com/megaease/easegress/pkg/filters/mock"
+	"github.com/megaease/easegress/pkg/object/pipeline"
 	"github.com/megaease/easegress/pkg/logger"
-	"github.com/megaease/easegress/pkg/protocols/httpprot"
 	"github.com/megaease/easegress/pkg/protocols/httpprot/httpstat"
 	"github.com/megaease/easegress/pkg/supervisor"
 	yaml "gopkg.in/yaml.v2"
@@ -38,23 +40,42 @@ var (
 	vfHSDiscN = map[string]int{}
 )
 
-type vfHSHandler struct{ name string }
+// vfHSMapper resolves pl1 / pl2 to real pipelines (a GlobalFilter insists on *pipeline.Pipeline
+// handlers, as the TrafficController's mapper provides them).
+type vfHSMapper struct{ m map[string]context.Handler }
 
-func (h *vfHSHandler) Handle(ctx *context.Context) string {
-	resp, _ := httpprot.NewResponse(nil)
-	resp.SetStatusCode(200)
-	resp.SetPayload([]byte("handled by " + h.name))
-	ctx.SetResponse(context.DefaultNamespace, resp)
-	return ""
+func (m vfHSMapper) GetHandler(name string) (context.Handler, bool) {
+	h, ok := m.m[name]
+	return h, ok
 }
 
-type vfHSMapper struct{}
-
-func (vfHSMapper) GetHandler(name string) (context.Handler, bool) {
-	if name == "pl1" || name == "pl2" {
-		return &vfHSHandler{name: name}, true
+// vfHSWorld builds the supervisor the specs belong to: business controller gf1 (an empty
+// GlobalFilter) exists, `nope` does not; pipelines pl1 / pl2 exist.
+func vfHSWorld(t *testing.T) (*supervisor.Supervisor, vfHSMapper) {
+	s0 := supervisor.NewDefaultMock()
+	gfSpec, err := s0.NewSpec("name: gf1\nkind: GlobalFilter\n")
+	if err != nil {
+		t.Fatalf("VF-INCONCLUSIVE fixed GlobalFilter spec rejected: %v", err)
 	}
-	return nil, false
+	ent, err := s0.NewObjectEntityFromSpec(gfSpec)
+	if err != nil {
+		t.Fatalf("VF-INCONCLUSIVE %v", err)
+	}
+	ent.InitWithRecovery(nil)
+	var bc sync.Map
+	bc.Store("gf1", ent)
+	super := supervisor.NewMock(nil, nil, bc, sync.Map{}, nil, nil, false, nil, nil)
+	mapper := vfHSMapper{m: map[string]context.Handler{}}
+	for _, n := range []string{"pl1", "pl2"} {
+		ps, err := super.NewSpec("name: " + n + "\nkind: Pipeline\nfilters:\n- name: m\n  kind: Mock\n  rules:\n  - match: {}\n    code: 200\n    body: handled by " + n + "\n")
+		if err != nil {
+			t.Fatalf("VF-INCONCLUSIVE fixed pipeline spec rejected: %v", err)
+		}
+		p := &pipeline.Pipeline{}
+		p.Init(ps, nil)
+		mapper.m[n] = p
+	}
+	return super, mapper
 }
 
 func vfHSRecover(fn func()) (panicked bool, text, site string) {
@@ -87,7 +108,7 @@ func vfHSFreePort() int {
 func TestVerifC13HTTPServer(t *testing.T) {
 	vf := vfBegin(t, "C13")
 	defer vf.End()
-	super := supervisor.NewDefaultMock()
+	super, mapper := vfHSWorld(t)
 	pools := &vfPools{
 		BackendURL: "http://127.0.0.1:1", DeadURL: "http://127.0.0.1:1", Htpasswd: "/nonexistent", MissingFile: "/nonexistent",
 		CertB64: base64.StdEncoding.EncodeToString([]byte(vfCertPEM)), KeyB64: base64.StdEncoding.EncodeToString([]byte(vfKeyPEM)),
@@ -186,7 +207,6 @@ func TestVerifC13HTTPServer(t *testing.T) {
 			vf.Violation(rt, key, "HTTPServer panicked during %s: %s\naccepted spec:\n%s%s", phase, txt, text, extra)
 		}
 
-		mapper := vfHSMapper{}
 		r := &runtime{
 			superSpec: spec,
 			eventChan: make(chan interface{}, 64),
